@@ -22,7 +22,7 @@ func init() {
 			"sub-step observations come from the verif-tagged hook verifSubstep in models/storage/storage.go",
 		},
 		Workloads: []core.Workload{
-			{Name: "storage", Variant: "plain", N: core.Tiered(80, 3000), Run: c13Case, TimeoutS: 120},
+			{Name: "storage", Variant: "plain", N: core.Tiered(210, 15000), Run: c13Case, TimeoutS: 120},
 		},
 		RequireTags: func(string) []string { return []string{"spill", "empty", "substeps>1", "demand-met", "demand-above-max", "demand-below-min"} },
 	})
@@ -76,8 +76,17 @@ func c13Case(c *core.Ctx) {
 	T := c.R.IntRange(5, 60)
 	in := GenInputs(model, c.R, T, ps)
 	iI := func(s string) int { return indexOf(desc.Inputs, s) }
-	scenario := c.R.Intn(6)
-	scn := []string{"mixed", "fill-to-spill", "draw-down", "heavy-rain", "evaporation", "demand-sweep"}[scenario]
+	scenario := c.R.Intn(7)
+	scn := []string{"mixed", "fill-to-spill", "draw-down", "heavy-rain", "evaporation", "demand-sweep", "gentle-spill"}[scenario]
+	if scenario == 6 {
+		// spillway regime: a spill rating that matters, inflow between 1x and 2x the rating, storage near full supply
+		if minRel[n-1] < 1 {
+			minRel[n-1] = c.R.Range(1, 8)
+		}
+		if maxRel[n-1] < minRel[n-1] {
+			maxRel[n-1] = minRel[n-1]
+		}
+	}
 	relTop := maxRel[n-1]
 	switch scenario {
 	case 1:
@@ -107,8 +116,17 @@ func c13Case(c *core.Ctx) {
 		for t := 0; t < T; t++ {
 			in[iI("demand")][t] = relTop * c.R.Range(0, 2)
 		}
+	case 6:
+		for t := 0; t < T; t++ {
+			in[iI("inflow")][t] = minRel[n-1] * c.R.Range(1, 2)
+			in[iI("demand")][t] = 0
+			in[iI("rainfall")][t], in[iI("pet")][t] = 0, 0
+		}
 	}
 	v0 := vmax * c.R.Range(0, 1.2)
+	if scenario == 6 {
+		v0 = vmax * c.R.Range(0.9, 1.05)
+	}
 	if c.R.Bool(0.15) {
 		v0 = 0
 	}
@@ -224,7 +242,7 @@ func c13Case(c *core.Ctx) {
 		}
 		if s.Spill > 0 {
 			tag("spill")
-			if vEnd <= vmax*(1+1e-12) {
+			if vEnd < vmax*(1-1e-9) { // clearly below full supply (the hook reports the volume after the spill; re-adding it rounds)
 				c.Violate("spill-below-full-supply", model, fmt.Sprintf("timestep %d: spill %v m3 with volume %v not above the full-supply volume %v", ti, s.Spill, vEnd, vmax))
 			}
 		}
